@@ -20,6 +20,17 @@ CLAIMED = {
         technique="TLA+ model checking of the recorded save protocol (TLC) + exhaustive real fault injection at every crash point",
         design_ref="4/C27",
     ),
+    "C18": dict(
+        level="model_checking",
+        text="NoisyStep.tla models every branch of NoisyMPSBackendImpl.sweep_complete (root finder = the transcription of BrentsRootFinder) against an adversarial "
+             "squared-norm environment; TLC checks steps-in-order-once, one fill per step, jumps inside the step at a sub-tolerance sign-changing bracket, target restored, "
+             "the root finder's precondition and termination under fairness. TLC-simulated behaviours are replayed into the real NoisyMPSBackendImpl with a scripted evolution "
+             "kernel (state compared after every progress()), and hook traces of replays and of ordinary noisy runs are validated by NoisyStepTrace.tla.",
+        note="Environment assumptions: finitely many crossings per step (MaxJumps), gap never exactly zero. Replays substitute emu_mps.mps_backend_impl.evolve_pair and random.uniform; "
+             "exhaustive only for the configured (K, L, gap alphabet); times rank-projected.",
+        technique="TLA+ model checking (TLC, safety + liveness) + spec->code replay of simulated behaviours + TLC trace validation of real runs",
+        design_ref="4/C18",
+    ),
 }
 PENDING_REASON = "check not built yet in this round (planned in DESIGN.md section 4); not claimed until it runs"
 NOT_APPLICABLE = {}
